@@ -81,6 +81,9 @@ type Machine struct {
 	lenient   int
 	callDepth int
 	initTop   *ssa.Function
+	sites     map[string]int
+	curFrame  *frame
+	curPos    token.Pos
 	nowSeq    int
 	lastNow   *Term
 	tzOff     *Term
@@ -247,7 +250,17 @@ const (
 	kJump
 )
 
-func (m *Machine) decide(c *Term) bool { return m.path.Decide(c) }
+func (m *Machine) decide(c *Term) bool {
+	if !c.IsConst() && m.sites != nil && m.curFrame != nil {
+		before := len(m.path.newWork)
+		r := m.path.Decide(c)
+		if len(m.path.newWork) > before {
+			m.sites[fmt.Sprintf("%s @%s", m.curFrame.fn, m.pos(m.curPos))]++
+		}
+		return r
+	}
+	return m.path.Decide(c)
+}
 
 func (fr *frame) jump(b *ssa.BasicBlock, symbolic bool) {
 	fr.prevBlock, fr.block = fr.block, b
@@ -276,6 +289,10 @@ func (m *Machine) pos(p token.Pos) string {
 
 func (m *Machine) visitInstr(fr *frame, instr ssa.Instruction) continuation {
 	m.steps++
+	m.curFrame = fr
+	if p := instr.Pos(); p != token.NoPos {
+		m.curPos = p
+	}
 	if m.steps > m.maxSteps {
 		m.end(OutBudget, "instruction budget %d exhausted in %s", m.maxSteps, fr.fn)
 	}
@@ -352,6 +369,13 @@ func (m *Machine) visitInstr(fr *frame, instr ssa.Instruction) continuation {
 		m.chanSend(fr.get(instr.Chan).(*Chan), fr.get(instr.X))
 
 	case *ssa.Store:
+		if sp, ok := fr.get(instr.Addr).(*SymPtr); ok {
+			v := fr.get(instr.Val).(*Term)
+			for i := range sp.elems {
+				sp.elems[i] = Ite(Eq(sp.idx, BV(64, uint64(i))), v, sp.elems[i].(*Term))
+			}
+			break
+		}
 		addr := fr.get(instr.Addr).(*Value)
 		if addr == nil {
 			m.rtPanic("invalid memory address or nil pointer dereference")
@@ -453,20 +477,30 @@ func (m *Machine) visitInstr(fr *frame, instr ssa.Instruction) continuation {
 	case *ssa.IndexAddr:
 		x := fr.get(instr.X)
 		idx := fr.get(instr.Index).(*Term)
+		var elems []Value
 		switch x := x.(type) {
 		case []Value:
-			i := m.indexCheck(idx, instr.Index.Type(), len(x))
-			fr.env[instr] = &x[i]
+			elems = x
 		case *Value:
 			if x == nil {
 				m.rtPanic("invalid memory address or nil pointer dereference")
 			}
-			a := (*x).(Array)
-			i := m.indexCheck(idx, instr.Index.Type(), len(a))
-			fr.env[instr] = &a[i]
+			elems = (*x).(Array)
 		default:
 			panic(fmt.Sprintf("unexpected x type in IndexAddr: %T", x))
 		}
+		if !idx.IsConst() && len(elems) > 0 && len(elems) <= 1024 && symPtrOK(instr) {
+			if _, scalar := elems[0].(*Term); scalar {
+				widx := widenIndex(idx, instr.Index.Type())
+				if !m.decide(BVCmp(OpBVUlt, widx, BV(64, uint64(len(elems))))) {
+					m.rtPanic(fmt.Sprintf("index out of range [sym] with length %d", len(elems)))
+				}
+				fr.env[instr] = &SymPtr{elems: elems, idx: widx}
+				break
+			}
+		}
+		i := m.indexCheck(idx, instr.Index.Type(), len(elems))
+		fr.env[instr] = &elems[i]
 
 	case *ssa.Index:
 		x := fr.get(instr.X)
@@ -527,12 +561,12 @@ func (m *Machine) indexCheck(idx *Term, it types.Type, n int) int {
 		}
 		return int(i)
 	}
-	w := idx.Sort.W
-	inb := BVCmp(OpBVUlt, idx, BV(w, uint64(n))) // unsigned compare covers negative
+	idx = widenIndex(idx, it)
+	inb := BVCmp(OpBVUlt, idx, BV(64, uint64(n))) // unsigned compare covers negative
 	if !m.decide(inb) {
 		m.rtPanic(fmt.Sprintf("index out of range [sym] with length %d", n))
 	}
-	return int(m.path.Concretize(idx))
+	return int(m.concretize(idx))
 }
 
 // indexRead reads element idx using an ite chain for scalar terms (no forking on the value of idx).
@@ -540,21 +574,29 @@ func (m *Machine) indexRead(idx *Term, it types.Type, n int, at func(int) Value)
 	if idx.IsConst() {
 		return at(m.indexCheck(idx, it, n))
 	}
-	w := idx.Sort.W
-	inb := BVCmp(OpBVUlt, idx, BV(w, uint64(n)))
+	idx = widenIndex(idx, it)
+	w := 64
+	inb := BVCmp(OpBVUlt, idx, BV(64, uint64(n)))
 	if !m.decide(inb) {
 		m.rtPanic(fmt.Sprintf("index out of range [sym] with length %d", n))
 	}
 	if n > 0 {
-		if _, ok := at(0).(*Term); ok && n <= 512 {
-			res := at(n - 1).(*Term)
-			for i := n - 2; i >= 0; i-- {
-				res = Ite(Eq(idx, BV(w, uint64(i))), at(i).(*Term), res)
-			}
-			return res
+		if _, ok := at(0).(*Term); ok && n <= 4096 {
+			_ = w
+			return muxRead(n, func(i int) *Term { return at(i).(*Term) }, idx)
 		}
 	}
-	return at(int(m.path.Concretize(idx)))
+	return at(int(m.concretize(idx)))
+}
+
+func widenIndex(idx *Term, it types.Type) *Term {
+	if idx.Sort.W == 64 {
+		return idx
+	}
+	if isSigned(it) {
+		return Sext(idx, 64)
+	}
+	return Zext(idx, 64)
 }
 
 func isSigned(t types.Type) bool {
@@ -570,7 +612,7 @@ func (m *Machine) concInt(v Value) int64 {
 	if t.IsConst() {
 		return t.S()
 	}
-	c := m.path.Concretize(t)
+	c := m.concretize(t)
 	return sx(c, t.Sort.W)
 }
 
@@ -803,4 +845,81 @@ func (m *Machine) doRecover(caller *frame) Value {
 		}
 	}
 	return Iface{}
+}
+
+// findMethod returns the exported method name of type T, or nil.
+func (m *Machine) findMethod(T types.Type, name string) *ssa.Function {
+	sel := m.P.prog.MethodSets.MethodSet(T).Lookup(nil, name)
+	if sel == nil {
+		return nil
+	}
+	return m.P.prog.MethodValue(sel)
+}
+
+func (m *Machine) concretize(t *Term) uint64 {
+	if !t.IsConst() && m.sites != nil && m.curFrame != nil {
+		before := len(m.path.newWork)
+		r := m.path.Concretize(t)
+		if len(m.path.newWork) > before {
+			m.sites[fmt.Sprintf("%s @%s (concretise)", m.curFrame.fn, m.pos(m.curPos))]++
+		}
+		return r
+	}
+	return m.path.Concretize(t)
+}
+
+// SymPtr is the address of a scalar element selected by a symbolic index; it only ever flows into
+// loads and stores of the same function (checked by symPtrOK), so no forking on the index is needed.
+type SymPtr struct {
+	elems []Value
+	idx   *Term
+}
+
+func symPtrOK(instr *ssa.IndexAddr) bool {
+	refs := instr.Referrers()
+	if refs == nil {
+		return false
+	}
+	for _, r := range *refs {
+		switch r := r.(type) {
+		case *ssa.UnOp:
+			if r.Op != token.MUL {
+				return false
+			}
+		case *ssa.Store:
+			if r.Addr != instr || r.Val == instr {
+				return false
+			}
+		case *ssa.DebugRef:
+		default:
+			return false
+		}
+	}
+	return true
+}
+
+// muxRead selects element idx (already known to be < n) with a balanced multiplexer over the index
+// bits; equal constant sub-trees collapse, which keeps lookups in sparse constant tables small.
+func muxRead(n int, at func(int) *Term, idx *Term) *Term {
+	bitsN := 0
+	for (1 << uint(bitsN)) < n {
+		bitsN++
+	}
+	var build func(lo, bit int) *Term
+	build = func(lo, bit int) *Term {
+		if lo >= n {
+			return at(n - 1)
+		}
+		if bit < 0 {
+			return at(lo)
+		}
+		hiT := build(lo+(1<<uint(bit)), bit-1)
+		loT := build(lo, bit-1)
+		if lo+(1<<uint(bit)) >= n {
+			return loT
+		}
+		c := Eq(Extract(idx, bit, bit), BV(1, 1))
+		return Ite(c, hiT, loT)
+	}
+	return build(0, bitsN-1)
 }
